@@ -219,17 +219,21 @@ pub enum FaultKind {
     ReadSyntax,
     /// a derived form that no rule of its macro matches: fails while the form is being expanded
     MacroSyntax,
+    /// a mutating primitive called with a range that does not fit: it must fail without having
+    /// written anything (the objects are globals of the session's set-up, read again at its end)
+    PartialMutator,
 }
 
-pub const RUNTIME_KINDS: [FaultKind; 5] = [
+pub const RUNTIME_KINDS: [FaultKind; 6] = [
     FaultKind::Unbound,
     FaultKind::Type,
     FaultKind::Arity,
     FaultKind::UserError,
     FaultKind::NonProcedure,
+    FaultKind::PartialMutator,
 ];
 
-pub const ALL_KINDS: [FaultKind; 8] = [
+pub const ALL_KINDS: [FaultKind; 9] = [
     FaultKind::Unbound,
     FaultKind::Type,
     FaultKind::Arity,
@@ -238,6 +242,7 @@ pub const ALL_KINDS: [FaultKind; 8] = [
     FaultKind::CompileSyntax,
     FaultKind::ReadSyntax,
     FaultKind::MacroSyntax,
+    FaultKind::PartialMutator,
 ];
 
 pub const READ_FAULT_PLACEHOLDER: &str = "%READ-FAULT%";
@@ -253,6 +258,7 @@ impl FaultKind {
             FaultKind::CompileSyntax => "compile_syntax",
             FaultKind::ReadSyntax => "read_syntax",
             FaultKind::MacroSyntax => "macro_syntax",
+            FaultKind::PartialMutator => "partial_mutator",
         }
     }
 
@@ -288,6 +294,13 @@ impl FaultKind {
                 }
             }
             FaultKind::ReadSyntax => sym(READ_FAULT_PLACEHOLDER),
+            FaultKind::PartialMutator => crate::sx::read_one(match n % 4 {
+                0 => "(vector-copy! %fault-vec 1 (vector 'p 'q 'r 's))",
+                1 => "(vector-fill! %fault-vec 'z 1 9)",
+                2 => "(string-fill! %fault-str #\\z 1 9)",
+                _ => "(vector-copy! %fault-vec 0 (vector 1 2) 1 5)",
+            })
+            .unwrap(),
             FaultKind::MacroSyntax => match n % 3 {
                 0 => list(vec![sym("let")]),
                 1 => crate::sx::read_one("(let ((a 1)) (let* ((b a)) (let loop ((i 0)) (cond))))").unwrap(),
